@@ -10,4 +10,6 @@ CONSTANTS
   FreshOldHash = TRUE
   DropMetaOnFail = TRUE
   UseIndirect = TRUE
+  WithAbsent = TRUE
+  CheckDepList = TRUE
 INVARIANT Emit
